@@ -202,6 +202,10 @@ fn past_int_range(site: &Site) -> Vec<(String, V)> {
         Ty::Int32 => vec![
             ("2^31 in a signed 32-bit member".into(), V::U(1 << 31)),
             ("-2^31-1 in a signed 32-bit member".into(), V::N(1 << 31)),
+            ("-2^63 in a signed 32-bit member".into(), V::N((1 << 63) - 1)),
+            ("2^63-1 in a signed 32-bit member".into(), V::U((1 << 63) - 1)),
+            ("-2^64 in a signed 32-bit member".into(), V::N(u64::MAX)),
+            ("2^64-1 in a signed 32-bit member".into(), V::U(u64::MAX)),
         ],
         Ty::Enum(vals) => {
             let mut out = Vec::new();
@@ -387,18 +391,21 @@ pub fn single_faults(cmd: u8, schema: &MapSchema, root: &V, rng: &mut Rng) -> Ve
                     site: s.name.clone(),
                     desc: format!("{}: {}", s.name, what),
                     delivered: d,
-                    expect: Expect::IfRejected(ST_INVALID_CBOR),
+                    expect: Expect::MustReject(ST_INVALID_CBOR),
                 });
             }
         }
         for (what, v) in past_int_range(s) {
             let r = replace(root, &s.path, |_| v).unwrap();
+            // a number outside the member's integer type must be rejected; which sub-command numbers are
+            // assigned is a table (C18), so for those only the status of a rejection is stated
+            let expect = if what.starts_with("unassigned") { Expect::IfRejected(ST_INVALID_CBOR) } else { Expect::MustReject(ST_INVALID_CBOR) };
             cases.push(Case {
                 class: "past_range",
                 site: s.name.clone(),
                 desc: format!("{}: {}", s.name, what),
                 delivered: msg(cmd, &r),
-                expect: Expect::IfRejected(ST_INVALID_CBOR),
+                expect,
             });
         }
     }
@@ -733,9 +740,11 @@ pub fn structure_fault(schema: &MapSchema, root: &V, rng: &mut Rng) -> (V, Struc
             // push an integer across its type range
             2 => {
                 let Some(s) = pick_site(rng, &|s| matches!(s.ty, Ty::UInt { .. } | Ty::Int32 | Ty::Enum(_))) else { continue };
-                let cands: [V; 12] = [
+                let cands: [V; 24] = [
                     V::U(255), V::U(256), V::U(65535), V::U(65536), V::U(0xffff_ffff), V::U(1 << 32),
                     V::U(u64::MAX), V::N(0x7fff_ffff), V::N(0x8000_0000), V::N(u64::MAX), V::U(0x7fff_ffff), V::U(0x8000_0000),
+                    V::N((1 << 63) - 1), V::N(1 << 63), V::U((1 << 63) - 1), V::U(1 << 63), V::N(127), V::N(128), V::N(32767), V::N(32768),
+                    V::U(127), V::U(128), V::N(0xffff_ffff), V::N(1 << 32),
                 ];
                 let v = rng.pick(&cands).clone();
                 let d = cbor::show(&v);
